@@ -24,9 +24,9 @@ pub fn kronecker_symbol_i64(mut a: i64, mut b: i64) -> i32 {
         }
         if b < 0 {
             b = -b;
-        }
-        if a < 0 {
-            k = -k;
+            if a < 0 {
+                k = -k;
+            }
         }
     }
     // 3. and 4.
